@@ -37,6 +37,21 @@ pub fn answer_kind(kind: &str, lines: &[String], replies: &[String]) -> String {
         "fuzz" => oracle_fuzz(lines),
         "listdel" => oracle_listdel(lines),
         "saveload" => oracle_saveload(lines),
+        "noslots" => oracle_noslots(lines, replies),
+        "samesession" => {
+            // two sessions (separated by a line "----"), every line typed in turn: the transcripts are equal
+            let i = lines.iter().position(|l| l == "----").unwrap_or(lines.len());
+            let run = |ls: &[String]| -> String {
+                let mut r = Run::new();
+                r.replies = replies.to_vec();
+                for l in ls {
+                    r.line(l);
+                }
+                r.take()
+            };
+            let (ta, tb) = (run(&lines[..i]), run(&lines[(i + 1).min(lines.len())..]));
+            if ta == tb { "ok".into() } else { fail(format!("{:?}\nvs\n{:?}", ta, tb)) }
+        }
         _ => "bad-kind".into(),
     }
 }
@@ -1821,5 +1836,134 @@ pub fn gen_c07<W: Write>(w: &mut W, tier: &str, seed: u64) {
         let nn = rng.below(24);
         let m = if rng.chance(1, 2) { None } else { Some(rng.below(15)) };
         case(w, &t, &x, nn, m);
+    }
+}
+
+// ---------------------------------------------------------------------------------------------
+// C18: a variable or element holding 0 / "" occupies no slot of the variable pool
+
+/// After the session no stored entry holds its type's default value (so "setting variables back to
+/// 0 frees their slots" whatever way the zero came about: by conversion, underflow, READ, INPUT, SWAP ...).
+fn oracle_noslots(lines: &[String], replies: &[String]) -> String {
+    use basic::mach::Val;
+    let mut r = Run::new();
+    r.replies = replies.to_vec();
+    for l in lines {
+        r.line(l);
+    }
+    let st = r.rt.verif_state();
+    let (vars, _, _) = st.vars.verif_parts();
+    for (k, v) in vars {
+        let is_default = match &v {
+            Val::Integer(n) => *n == 0,
+            Val::Single(x) => *x == 0.0,
+            Val::Double(x) => *x == 0.0,
+            Val::String(t) => t.is_empty(),
+            _ => false,
+        };
+        if is_default {
+            return fail(format!("the variable pool holds a slot for {:?} whose value is the default {:?}", k, v));
+        }
+    }
+    "ok".into()
+}
+
+pub fn gen_c18_slots<W: Write>(w: &mut W, tier: &str, seed: u64) {
+    let mut rng = Rng::new(seed ^ 0xC18);
+    let zeros = ["0", "0.4", "0.99", "-0", "1-1", "N%/10", "1D-60", "1E-30*1E-30", "0!", "0#", "3\\4", "2 MOD 2", "NOT -1", "1=2", "LEN(\"\")", "INT(0.7)", "VAL(\"x\")", "ASC(\"a\")-97", "F!*0"];
+    let strs = ["\"\"", "LEFT$(\"abc\",0)", "MID$(\"abc\",9)", "STRING$(0,65)", "\"\"+\"\"", "RIGHT$(S$,0)"];
+    let targets = ["A%", "B!", "C#", "D", "E%(3)", "F!(2,2)", "G#(1)", "H(7)", "I1%"];
+    for t in targets {
+        for z in zeros {
+            // set to something first, then back to zero by every road
+            emit(w, "C18", "noslots", &[format!("N%=5:F!=2:{}=7:{}={}", t, t, z), format!("PRINT {}", t)], &[]);
+            emit(w, "C18", "noslots", &[format!("10 N%=5:F!=2:{}=7", t), format!("20 {}={}", t, z), "RUN".to_string()], &[]);
+        }
+    }
+    for t in ["A$", "B$(4)", "S$"] {
+        for z in strs {
+            emit(w, "C18", "noslots", &[format!("S$=\"q\":{}=\"x\":{}={}", t, t, z)], &[]);
+        }
+    }
+    // zero arriving through READ, INPUT, SWAP, FOR/NEXT, DEFtype conversion, MID$ assignment
+    let others: Vec<(Vec<&str>, Vec<&str>)> = vec![
+        (vec!["10 DATA 0.3,0,\"\"", "20 A%=9:B=9:C$=\"x\"", "30 READ A%,B,C$", "RUN"], vec![]),
+        (vec!["10 A%=9:B$=\"x\":C=3", "20 INPUT A%,B$,C", "RUN"], vec!["0.4,,0"]),
+        (vec!["A%=5:B%=0:SWAP A%,B%"], vec![]),
+        (vec!["A=5:SWAP A,Z"], vec![]),
+        (vec!["A$=\"x\":SWAP A$,Z$"], vec![]),
+        (vec!["DIM Q(3):Q(1)=4:SWAP Q(1),Q(2):SWAP Q(2),Q(3):Q(3)=Q(0)"], vec![]),
+        (vec!["FOR I%=3 TO 1 STEP -1:NEXT"], vec![]),
+        (vec!["FOR I=-2 TO -1:NEXT"], vec![]),
+        (vec!["FOR J!=0.5 TO 0 STEP -0.5:NEXT"], vec![]),
+        (vec!["10 DEFINT A:A=0.7:AB=.2:A(2)=0.9"], vec![]),
+        (vec!["A$=\"\":MID$(A$,1)=\"zz\""], vec![]),
+        (vec!["X=1:X=X-1:Y#=2:Y#=Y#-2:Z%=3:Z%=Z%-3"], vec![]),
+        (vec!["10 DEF FNZ(P%)=P%*2", "20 PRINT FNZ(0.3);FNZ(0)"], vec![]),
+    ];
+    for (prog, reps) in others {
+        let v: Vec<String> = prog.iter().map(|s| s.to_string()).collect();
+        let r: Vec<String> = reps.iter().map(|s| s.to_string()).collect();
+        emit(w, "C18", "noslots", &v, &r);
+    }
+    // and after whole generated programs
+    let n = if tier == "thorough" { 10_000 } else { 300 };
+    for _ in 0..n {
+        let sz = 1 + rng.below(4);
+        let p = gen_program(&mut rng, sz);
+        let mut v = p.text();
+        v.push("RUN".into());
+        emit(w, "C18", "noslots", &v, &p.replies);
+    }
+}
+
+// ---------------------------------------------------------------------------------------------
+// C20: the end of the program is the end of the program, whatever the last statement is and whatever
+// direct statement is compiled behind it
+
+pub fn gen_c20_tail<W: Write>(w: &mut W, tier: &str, seed: u64) {
+    let mut rng = Rng::new(seed ^ 0xC20);
+    let fixed: Vec<(Vec<&str>, &str)> = vec![
+        (vec!["10 GOTO 30", "20 PRINT \"SUB\";:RETURN", "30 ON 1 GOSUB 20", "N=N+1:PRINT N;:IF N<3 THEN GOTO 10"], " 1 SUB\nREADY.\n"),
+        (vec!["10 DEF FNA(X)=X*2", "RUN", "PRINT FNA(21)"], "READY.\n 42 \nREADY.\n"),
+        (vec!["10 GOSUB 30", "20 PRINT \"DONE\":END", "30 C=C+1:PRINT C;:IF C<2 THEN RETURN", "RUN", "C=C+5:IF C<20 THEN GOTO 30"], " 1 DONE\nREADY.\n 7 \nREADY.\n"),
+        (vec!["10 IF 0 THEN END", "RUN", "PRINT 5"], "READY.\n 5 \nREADY.\n"),
+        (vec!["10 PRINT 1:IF 0 THEN STOP", "N=N+1:IF N<3 THEN GOTO 10"], " 1 \nREADY.\n"),
+        (vec!["10 PRINT 1:WHILE 0:WEND", "N=N+1:IF N<3 THEN GOTO 10"], " 1 \nREADY.\n"),
+        (vec!["10 PRINT 1:FOR I=1 TO 0:NEXT", "N=N+1:IF N<3 THEN GOTO 10"], " 1 \nREADY.\n"),
+        (vec!["10 PRINT 1:ON 0 GOTO 10", "N=N+1:IF N<3 THEN GOTO 10"], " 1 \nREADY.\n"),
+        (vec!["10 PRINT 1:ON 3 GOSUB 10", "N=N+1:IF N<3 THEN GOTO 10"], " 1 \nREADY.\n"),
+        (vec!["10 PRINT 1:IF 0 THEN RETURN", "N=N+1:IF N<3 THEN GOSUB 10:PRINT \"B\""], " 1 \nREADY.\n"),
+    ];
+    for (lines, expected) in fixed {
+        let mut v = vec![hex(expected)];
+        v.extend(lines.iter().map(|l| l.to_string()));
+        emit(w, "C20", "session", &v, &[]);
+    }
+    // a remark appended after the last line changes nothing, whatever the program ends in and
+    // whichever direct statement enters it
+    let n = if tier == "thorough" { 6_000 } else { 200 };
+    for _ in 0..n {
+        let sz = 1 + rng.below(3);
+        let p = gen_program(&mut rng, sz);
+        let lines: Vec<String> = p.text().into_iter().filter(|l| !l.contains("TRON") && !l.contains("INPUT")).collect();
+        let last = p.lines.last().map(|(n, _)| *n).unwrap_or(10);
+        let first = p.lines[0].0;
+        let enter = match rng.below(4) {
+            0 => "RUN".to_string(),
+            1 => format!("N9=N9+1:IF N9<3 THEN GOTO {}", first),
+            2 => format!("GOTO {}", p.lines[rng.below(p.lines.len())].0),
+            _ => format!("N9=N9+1:PRINT N9;:IF N9<2 THEN RUN {}", first),
+        };
+        let mut a = lines.clone();
+        a.push(enter.clone());
+        let mut b = lines.clone();
+        if last < 65529 {
+            b.push(format!("{} REM tail", last + 1 + rng.below(5) as u32));
+        }
+        b.push(enter);
+        a.push("----".into());
+        a.extend(b);
+        emit(w, "C20", "samesession", &a, &[]);
     }
 }
